@@ -796,6 +796,15 @@ theorem caddyfile_argument_loops_have_fuel_to_spare (d : Disp) (more : Nat) :
     segArgs (d.toks.length + 2) d = segArgs (d.toks.length + 2 + more) d :=
   ⟨remainingArgs_fuel _ _ d (by omega) (by omega), segArgs_fuel _ _ d (by omega) (by omega)⟩
 
+/-- a second `fallback` in the block of a query / header / cookie policy is an error — the fallback
+    in force is never silently replaced -/
+theorem caddyfile_second_fallback_rejected (dur : Bytes → Option Int) (cookie : Bool) (lf : List Tok → CfRes)
+    (n : Nat) (d : Disp) (st : BlkState) (hb : (d.nextBlock 0).1 = true)
+    (hv : (d.nextBlock 0).2.val = str "fallback") (ha : (d.nextBlock 0).2.nextArg.1 = true)
+    (hfb : st.fb.isSome = true) : blockLoop dur cookie lf (n + 1) d st = .err := by
+  unfold blockLoop
+  simp only [hb, hv, ha, hfb, if_true]
+
 /-! ### the `reverse_proxy` directive: `lb_policy` once, `lb_retries`, the passive limits -/
 
 /-- a second `lb_policy` in the same `reverse_proxy` block is an error ("already specified") — the
